@@ -5,6 +5,7 @@ import (
 	"go/token"
 	"go/types"
 	"math"
+	"os"
 	"reflect"
 	"strings"
 
@@ -60,6 +61,8 @@ func NativeTable() *engine.NativeTable {
 		Globals: map[string]interface{}{
 			"go/types.Typ":      types.Typ,
 			"go/types.Universe": types.Universe,
+			"os.Stderr":         os.Stderr,
+			"os.Stdout":         os.Stdout,
 		},
 	}
 }
